@@ -493,6 +493,29 @@ fn define_inherent_impl(
             continue;
         }
 
+        // `Shape::wrap(s)` builds the variant `wrap` of `enum Shape`; a method of that name would be
+        // reached by `s.wrap()` only, and the two forms of one call would mean two things.
+        let names_a_variant = super::util::try_constr_name(&for_ty).is_some_and(|enum_name| {
+            env.current()
+                .enums()
+                .get(&tast::TastIdent(enum_name))
+                .is_some_and(|def| def.variants.iter().any(|(v, _)| v.0 == method_name_str))
+        });
+        if names_a_variant {
+            diagnostics.push(Diagnostic::new(
+                Stage::Typer,
+                Severity::Error,
+                format!(
+                    "Method {} of {:?} has the name of one of its variants: {}::{}(..) builds the variant",
+                    method_name_str,
+                    for_ty,
+                    super::util::try_constr_name(&for_ty).unwrap_or_default(),
+                    method_name_str
+                ),
+            ));
+            continue;
+        }
+
         // Combine impl generics and method generics
         let mut all_generics = impl_block.generics.clone();
         all_generics.extend(m.generics.clone());
